@@ -759,7 +759,25 @@ pub fn gen_c12(r: &mut Rng) -> ScriptCase {
     if r.chance(1, 2) {
         labels.push("mock".to_string());
     }
-    ScriptCase { labels, text, db, tag: "c12".into(), ..Default::default() }
+    // a connection line that no record follows (end of the script, or `halt`) routes nothing: not the
+    // first record of the next script on the same runner either
+    let mut text2 = None;
+    if r.chance(1, 3) {
+        if r.chance(1, 2) {
+            text.push_str(&format!("connection {}\n", r.pick(CONNS)));
+        } else {
+            text.push_str(&format!("connection {}\nhalt\n\n", r.pick(CONNS)));
+        }
+        let mut t2 = String::new();
+        for i in 0..r.range(1, 3) {
+            if r.chance(1, 3) {
+                t2.push_str(&format!("connection {}\n", r.pick(CONNS)));
+            }
+            t2.push_str(&format!("statement ok\nsecond{}\n\n", i));
+        }
+        text2 = Some(t2);
+    }
+    ScriptCase { labels, text, text2, db, tag: "c12".into(), ..Default::default() }
 }
 
 /// C15: result sets around the threshold
